@@ -9,6 +9,10 @@ ENGINES = [
 
 # id -> dict(level, text, note, technique, design_ref, engine)
 CHECKS = {
+ "C01": dict(level="exploration", engine="E1", design_ref="DESIGN.md §5 C01",
+   technique="deterministic simulation: seeded search over generated messages, transport chunkings, partial-write/back-pressure patterns, stream-credit delays and task interleavings of a real h3 client and server; record/compare oracle (what was obtained = what was submitted) plus reference QPACK decoding of HEADERS on the wire",
+   text="Real h3 client and real h3 server on the two ends of SimQuic exchange 1-3 generated request/response pairs (methods incl. CONNECT/extended CONNECT, targets, colliding header names, bodies 0..64 KiB in pieces incl. empty pieces and multi-chunk Bufs, trailers; whole or split streams, sequential or concurrent) while the simulator draws chunk sizes, write acceptance, pends, credit grants, FIN timing, accept order, task order and spurious polls. Oracle: every call succeeds, server obtains exactly the submitted request and client exactly the submitted response (per-name value order, identical body bytes, one clean end, trailers), no connection error, no stuck call at quiescence, HEADERS on the wire decode (reference codec) to the submitted fields. Back-pressure and delay only, no faults. Sampling, not proof.",
+   note="Trusted: SimQuic, simexec, refs::qpack/frames, http/bytes crates, the application models (documented call pattern; the last SendRequest is kept until all exchanges are over because CONNECTION_CLOSE legitimately discards unread data). Header names/values are restricted to ones http and h3 accept."),
  "C02": dict(level="fault_enumeration", engine="E1", design_ref="DESIGN.md §5 C02",
    technique="deterministic simulation: seeded search over transport chunkings and end-of-stream/RESET positions of grammar-generated frame strings, judged against an RFC 9114 §7.1 reference segmenter; metamorphic comparison across chunkings",
    text="Seeded simulation of h3's real FrameStream over a simulated receive stream: frame strings from a grammar (all known/HTTP-2/unknown types, all varint forms, right/short/long payloads, truncations; a systematic family of short strings first) are delivered under 1-3 drawn chunkings with FIN, open or overtaking RESET endings; the frames acted on and the terminal outcome must equal an independent RFC 9114 §7.1/§7.2 reference and must not depend on the chunking. Sampling, not proof; end positions and the short-string family are enumerated systematically.",
@@ -17,6 +21,10 @@ CHECKS = {
    technique="deterministic simulation: seeded search over frame sequences, endings (FIN / RESET at a drawn offset / open), chunkings and task interleavings against real h3 server and client, judged by an RFC 9114 §4.1 reference state machine",
    text="Real h3 server and client (connection driver, request stream state machine, FrameStream, QPACK) over SimQuic receive a scripted peer's frame sequence (valid sequence plus at most one deviation over the full alphabet incl. DATA(0), unknown frames, control-only frames, PUSH_PROMISE to a server, HTTP/2 types) ending in FIN, RESET at a drawn byte offset or left open, under drawn chunkings, FIN timing, task order and spurious polls; the application follows the documented call pattern and its complete history (message, body bytes, end-of-body, trailers, connection outcome, close code) is compared with the reference state machine. Sampling over seeds, not enumeration.",
    note="Trusted: the reference state machine in checks/c03.rs (walk), refs::frames/qpack/varint, SimQuic, simexec. Payloads of generated frames are well-formed so that one RFC rule applies. Client-side FIN/PUSH_PROMISE before a response is unconstrained; under RESET only prefix-consistency is required."),
+ "C14": dict(level="exploration", engine="E1", design_ref="DESIGN.md §5 C14",
+   technique="deterministic simulation: seeded search over generated API-call programs, builder configurations and per-call write-acceptance/pend patterns of the transport; history check of the complete per-stream byte logs by a reference RFC 9114 parser",
+   text="Generated programs (1-4 exchanges in both roles, empty and multi-chunk buffers, trailers, streams abandoned mid-body, split halves, server shutdown(n) and client shutdown at drawn moments, drawn builder options) run on real h3 endpoints over SimQuic, which accepts writes down to one byte at a time, splits frame headers, pends and withholds stream credit. Afterwards every byte either endpoint wrote on every stream is parsed with the reference codecs: legal uni stream types, SETTINGS first and only allowed frames on the control stream (never finished/reset), only complete HEADERS/DATA/reserved frames in legal order on request streams, length fields consistent, reserved identifiers of the 0x1f*N+0x21 form, no HTTP/2 types or settings, GOAWAY ids non-increasing, DATA payloads concatenating to exactly what send_data was given, HEADERS decoding to what was submitted, and no misuse of the transport traits (overlapping send_data). Sampling, not proof.",
+   note="Trusted: checks/wire.rs (reference validator), refs::frames/qpack/varint, SimQuic's byte logs. Futures are awaited to completion except accept(), which is cancelled for shutdown(n) as in the documented select pattern."),
 }
 
 NOT_APPLICABLE = {
